@@ -267,8 +267,10 @@ def resolve_attr_path(node):
     while isinstance(x, ast.Attribute):
         attr_path.append(x.attr)
         x = x.value
-    if isinstance(x, ast.Name):
-        attr_path.append(x.id)
+    if not isinstance(x, ast.Name):
+        # not rooted at a name (call result, constant, ...): there is no path to check against a whitelist
+        return None
+    attr_path.append(x.id)
     return ".".join(reversed(attr_path))
 
 
@@ -536,6 +538,7 @@ class RecordContextMatcher:
         self.selector_backtrace = []
         self.selector_backtrace_verbosity = backtrace_verbosity
         self.data = {}
+        self.callable_names = set()
         self.rec = None
 
     def matches(self, rec):
@@ -559,6 +562,9 @@ class RecordContextMatcher:
 
         # Type matcher
         self.data["Type"] = TypeMatcher(rec)
+
+        # Only these names may be called; variables bound later (generator expressions) never are
+        self.callable_names = {name for name, value in self.data.items() if callable(value)}
 
         return self.eval(self.expression.body)
 
@@ -645,7 +651,7 @@ class RecordContextMatcher:
                 raise InvalidOperation("Error, only ast.Attribute or ast.Name are expected")
 
             func_name = resolve_attr_path(node)
-            if not (callable(self.data.get(func_name)) or func_name in WHITELIST):
+            if not (func_name in self.callable_names or func_name in WHITELIST):
                 raise InvalidOperation(
                     "Call '{}' not allowed. No calls other then whitelisted 'global' calls allowed!".format(func_name)
                 )
